@@ -122,11 +122,36 @@ pub fn scenario(idx: usize, seed: u64) -> ScenarioResult {
             tokio::time::sleep(off_b).await;
             if bg_b { background(&nb, id_a, addr_a).await } else { nb.connect(addr_a).await }
         };
+        // "both sides keep the same single connection and drop the other": whoever closes a
+        // connection does so because it keeps another one, so from the moment both sides have listed
+        // each other once there is never an instant at which NEITHER lists the other.  Sampled every
+        // millisecond of virtual time through the dials and the first seconds after them.
+        let both_empty_at: std::sync::Arc<std::sync::Mutex<Option<u64>>> = Default::default();
+        let sampler = {
+            let (sa, sb, log, out) = (a.net.clone(), b.net.clone(), w.log.clone(), both_empty_at.clone());
+            tokio::spawn(async move {
+                let (mut seen_a, mut seen_b) = (false, false);
+                loop {
+                    let (ea, eb) = (sa.peers().is_empty(), sb.peers().is_empty());
+                    seen_a |= !ea;
+                    seen_b |= !eb;
+                    if seen_a && seen_b && ea && eb {
+                        let mut o = out.lock().unwrap();
+                        if o.is_none() {
+                            *o = Some(log.now());
+                        }
+                    }
+                    tokio::time::sleep(Duration::from_millis(1)).await;
+                }
+            })
+        };
         let (ra, rb) = tokio::join!(dial_a, dial_b);
         // the network becomes quiet: no more faults
         w.fabric.clear_links();
         w.fabric.set_default_link(LinkParams::fixed(lat_lo));
-        tokio::time::sleep(Duration::from_secs(30)).await;
+        tokio::time::sleep(Duration::from_secs(5)).await;
+        sampler.abort();
+        tokio::time::sleep(Duration::from_secs(25)).await;
 
         let witness_base = json!({
             "scenario": idx, "seed": seed,
@@ -189,9 +214,21 @@ pub fn scenario(idx: usize, seed: u64) -> ScenarioResult {
         }
         let sa = ev_sig(&ev_a);
         let sb = ev_sig(&ev_b);
+        if let Some(t) = *both_empty_at.lock().unwrap() {
+            problems.push(format!("at t={t} us neither side listed the other although both had before: the two sides did not keep the same connection (events A {sa:?}, B {sb:?})"));
+        }
         for (side, s) in [("A", &sa), ("B", &sb)] {
-            if s != "N" && s != "NLN" {
-                problems.push(format!("{side}'s event sequence is {s:?}, expected N or NLN"));
+            // Two explicit dials mean two connections: a side sees N, or NLN when the tie-break
+            // replaces its first registration.  With a background side there may be more than two:
+            // a side whose first connection was closed as the loser BEFORE the winner reached it is
+            // unconnected for a moment, and its background dialer may start another attempt that is
+            // then tie-broken away as well.  The property bounds the outcome (one shared connection,
+            // then silence - checked below), not the number of transient replacements, so there any
+            // strictly alternating sequence that starts and ends connected is accepted.
+            let alternating = s.len() % 2 == 1 && s.chars().enumerate().all(|(i, c)| c == if i % 2 == 0 { 'N' } else { 'L' });
+            let ok = if bg_a || bg_b { alternating } else { s == "N" || s == "NLN" };
+            if !ok {
+                problems.push(format!("{side}'s event sequence is {s:?}, expected N or NLN{}", if bg_a || bg_b { " (or a longer strictly alternating sequence ending connected, with a background dialer)" } else { "" }));
             }
         }
         // RPCs in both directions
